@@ -1,0 +1,53 @@
+//! Verification hooks, compiled only with the `verif` feature: a per-thread log of the
+//! `SymbolMap` mutations in allocation order, so that a model of the symbol map can be replayed
+//! on exactly the operations the indexer performed.
+use std::cell::RefCell;
+use std::collections::HashMap;
+
+use crate::file_system::FileRange;
+use crate::symbol_map::symbol::SymbolId;
+
+#[derive(Debug, Clone, PartialEq, Eq)]
+pub enum SymbolOp {
+    /// a symbol was allocated and its definition location registered
+    Define { name: String, loc: FileRange },
+    /// a symbol was allocated without registering a position (anonymous def / defm)
+    DefineAnon { name: String, loc: FileRange },
+    /// `add_reference(symbol, loc)`; `symbol` is the allocation index of the symbol
+    Reference { symbol: usize, loc: FileRange },
+}
+
+thread_local! {
+    static LOG: RefCell<Vec<SymbolOp>> = const { RefCell::new(Vec::new()) };
+    static IDS: RefCell<HashMap<SymbolId, usize>> = RefCell::new(HashMap::new());
+}
+
+pub fn clear() {
+    LOG.with(|l| l.borrow_mut().clear());
+    IDS.with(|m| m.borrow_mut().clear());
+}
+
+pub fn take() -> Vec<SymbolOp> {
+    IDS.with(|m| m.borrow_mut().clear());
+    LOG.with(|l| std::mem::take(&mut *l.borrow_mut()))
+}
+
+pub fn define(id: SymbolId, name: &str, loc: FileRange, anonymous: bool) {
+    IDS.with(|m| {
+        let mut m = m.borrow_mut();
+        let n = m.len();
+        m.insert(id, n);
+    });
+    LOG.with(|l| {
+        l.borrow_mut().push(if anonymous {
+            SymbolOp::DefineAnon { name: name.to_string(), loc }
+        } else {
+            SymbolOp::Define { name: name.to_string(), loc }
+        })
+    });
+}
+
+pub fn reference(id: SymbolId, loc: FileRange) {
+    let symbol = IDS.with(|m| m.borrow().get(&id).copied().unwrap_or(usize::MAX));
+    LOG.with(|l| l.borrow_mut().push(SymbolOp::Reference { symbol, loc }));
+}
